@@ -538,7 +538,7 @@ func (t *Tables) Exec(c *t_aio.Command) (*MResult, error) {
 		var n int64
 		for _, k := range t.Tasks {
 			if k.State == 4 && k.ProcessId != nil && *k.ProcessId == cmd.ProcessId {
-				k.ExpiresAt = cmd.Time + k.Ttl
+				k.ExpiresAt = addSat(cmd.Time, k.Ttl)
 				n++
 			}
 		}
@@ -588,7 +588,7 @@ func (t *Tables) Exec(c *t_aio.Command) (*MResult, error) {
 		var n int64
 		for _, l := range t.Locks {
 			if l.ProcessId == cmd.ProcessId {
-				l.ExpiresAt = cmd.Time + l.Ttl
+				l.ExpiresAt = addSat(cmd.Time, l.Ttl)
 				n++
 			}
 		}
@@ -605,6 +605,23 @@ func (t *Tables) Exec(c *t_aio.Command) (*MResult, error) {
 		return &MResult{Result: &t_aio.Result{Kind: c.Kind, TimeoutLocks: &t_aio.AlterLocksResult{RowsAffected: n}}}, nil
 	}
 	return nil, fmt.Errorf("model: unknown command kind %d", c.Kind)
+}
+
+// addSat adds the way the SQL engine does for 64-bit integers: a sum that
+// overflows becomes a floating point number, which reads back as the largest
+// (smallest) integer.
+// AddSat is exported for the lease rules.
+func AddSat(a, b int64) int64 { return addSat(a, b) }
+
+func addSat(a, b int64) int64 {
+	c := a + b
+	if (a > 0 && b > 0 && c < 0) || (a < 0 && b < 0 && c >= 0) {
+		if a > 0 {
+			return 1<<63 - 1
+		}
+		return -1 << 63
+	}
+	return c
 }
 
 func dataPtr(b []byte) *string {
